@@ -209,6 +209,25 @@ func checkCleanFallback(c *core.Ctx, fn *ssa.Function, r *ssa.Return, key string
 		c.Fail("C20.R3", key+"/fallback", r.Pos(), "return without results")
 		return
 	}
+	// `return f.unsupportedReader(ctx, "GetBlob", repo)`: the fallback is built by a
+	// private helper, which is held to the same rule (its parameters standing for
+	// the arguments of this call)
+	if cl := delegatedCall(r.Results); cl != nil && fallbackDepth < 2 {
+		h := cl.Call.StaticCallee()
+		if h != nil && h.Origin() != nil && (h.Blocks == nil || h.Synthetic != "") {
+			h = h.Origin()
+		}
+		if h != nil && h != newErr && h.Blocks != nil && len(privateCallSites(h)) > 0 && len(cl.Call.Args) == len(h.Params) {
+			fallbackDepth++
+			withParams(h, cl, func() {
+				for _, r2 := range returnsOf(h) {
+					checkCleanFallback(c, h, r2, key, newErr, recvTerm)
+				}
+			})
+			fallbackDepth--
+			return
+		}
+	}
 	last := facts.Resolve(r.Results[n-1])
 	isNewErrCall := func(v ssa.Value) bool {
 		call, ok := facts.Resolve(v).(*ssa.Call)
@@ -327,4 +346,24 @@ func checkErrorSeq(c *core.Ctx) {
 		}
 	}
 	c.Check(ok, "C20.R3", "ErrorSeq/yields-once", fn.Pos(), "iterator calls yield exactly once with the given error", "ErrorSeq's iterator does not yield exactly one (zero, err) pair")
+}
+
+var fallbackDepth int
+
+// delegatedCall: the returned values are exactly the results of one call, in order.
+func delegatedCall(vals []ssa.Value) *ssa.Call {
+	if len(vals) == 0 {
+		return nil
+	}
+	var call *ssa.Call
+	switch x := facts.Resolve(vals[0]).(type) {
+	case *ssa.Call:
+		call = x
+	case *ssa.Extract:
+		call, _ = x.Tuple.(*ssa.Call)
+	}
+	if call == nil || !valsFromCall(vals, call) {
+		return nil
+	}
+	return call
 }
